@@ -81,7 +81,7 @@ class TolerantExecutor(FrameExecutor):
     def exec_stmt(self, node, st):
         try:
             return FrameExecutor.exec_stmt(self, node, st.fork())
-        except Undecided as e:
+        except (Undecided, TypeError, AttributeError, ValueError, KeyError, z3.Z3Exception) as e:
             self.abstracted.append((self.cur_func[-1] if self.cur_func else "?", getattr(node, "lineno", 0), type(node).__name__, str(e)[:120]))
             return self.abstract_stmt(node, st)
 
@@ -93,6 +93,15 @@ class TolerantExecutor(FrameExecutor):
                 for n in ast.walk(t):
                     if isinstance(n, ast.Name) and isinstance(n.ctx, ast.Store):
                         st.locals[n.id] = Tainted("abstracted assignment", taint)
+                # a store of an unknown value into a modelled field of a known object: the field becomes arbitrary there
+                if isinstance(t, ast.Attribute) and isinstance(t.value, ast.Name) and isinstance(st.locals.get(t.value.id), RefV) and self.schema.type_of(t.attr):
+                    obj = st.locals[t.value.id]
+                    for key in [k for k in (t.attr, t.attr + "#nan", t.attr + "#none") if k in st.heap.maps or k == t.attr]:
+                        try:
+                            st.heap.ensure(key)
+                            st.heap.havoc(key, cond=lambda x, obj=obj: x == obj.term)
+                        except Exception:
+                            pass
             return [(st, NORMAL)]
         if isinstance(node, ast.Expr):
             return [(st, NORMAL)]
